@@ -97,6 +97,37 @@ def _run_driver(out_json, features, repo=None):
         raise NoVerdict("the fact extractor did not run (cargo skipped the wrapper?):\n" + r.stdout[-2000:])
 
 
+def scramble_locals(data):
+    """robustness self-test: rename every user local / parameter / captured variable (except `self`) of every body.
+    A rule that still decides the same way does not depend on the spelling of a local name."""
+    import hashlib
+
+    def f(name):
+        if name in ("self", "_") or not name:
+            return name
+        return "q" + hashlib.md5(name.encode()).hexdigest()[:7]
+
+    def walk(x):
+        if isinstance(x, list):
+            for i, y in enumerate(x):
+                if isinstance(y, str):
+                    if y.startswith(".^"):
+                        x[i] = ".^" + f(y[2:])
+                else:
+                    walk(y)
+        elif isinstance(x, dict):
+            for k, y in x.items():
+                if isinstance(y, str):
+                    if y.startswith(".^"):
+                        x[k] = ".^" + f(y[2:])
+                else:
+                    walk(y)
+    for b in data["bodies"]:
+        b["vars"] = [[f(n), pl] for n, pl in b["vars"]]
+        walk(b["blocks"])
+        walk(b["vars"])
+
+
 def load(features="", repo=None, quiet=False):
     """Return (facts dict, info dict).  Runs the driver when the tree changed."""
     t0 = time.time()
@@ -134,6 +165,8 @@ def load(features="", repo=None, quiet=False):
     with open(pk, "rb") as fh:
         data = pickle.load(fh)
     os.utime(pk)
+    if os.environ.get("DISCRET_SCRAMBLE_LOCALS"):
+        scramble_locals(data)
     info = {"key": key, "driver_ran": ran, "load_s": round(time.time() - t0, 2), "features": features,
             "bodies": len(data["bodies"]), "repo": repo or REPO}
     if not quiet:
